@@ -623,8 +623,8 @@ struct KnownFinding {
 }
 
 fn load_known(prop: &str) -> Vec<KnownFinding> {
-    let p = Path::new("/verif/known_findings.json");
-    let Ok(s) = std::fs::read_to_string(p) else { return vec![] };
+    let p = format!("{}/known_findings.json", verif_root());
+    let Ok(s) = std::fs::read_to_string(Path::new(&p)) else { return vec![] };
     let all: Vec<KnownFinding> = match serde_json::from_str(&s) {
         Ok(v) => v,
         Err(e) => {
@@ -766,7 +766,7 @@ fn main() {
     let known = load_known(&prop);
     let mut violations = 0;
     let mut known_hits = 0;
-    let dir = PathBuf::from(format!("/verif/replays/{}", prop));
+    let dir = PathBuf::from(format!("{}/replays/{}", verif_root(), prop));
     let _ = std::fs::create_dir_all(&dir);
     let mut lines = Vec::new();
     for (sig, rp) in &found {
@@ -853,8 +853,8 @@ fn main() {
             "packets are built through public constructors within DNS size limits (labels 1..=63, names <= 255, strings <= 255, message <= 65535)",
         ],
     });
-    let _ = std::fs::create_dir_all("/verif/evidence");
-    std::fs::write(format!("/verif/evidence/{}.json", prop), serde_json::to_string_pretty(&ev).unwrap()).expect("write evidence");
+    let _ = std::fs::create_dir_all(format!("{}/evidence", verif_root()));
+    std::fs::write(format!("{}/evidence/{}.json", verif_root(), prop), serde_json::to_string_pretty(&ev).unwrap()).expect("write evidence");
 
     for l in &lines {
         println!("{}", l);
@@ -946,4 +946,9 @@ fn parse_scan(cases: u64) {
     for (loc, (n, msg)) in &sites {
         println!("{:6}  {}   [{}]", n, loc, msg.split(" @ ").next().unwrap_or(""));
     }
+}
+
+/// Root of the verification tree: $VERIF_ROOT (set by ./check to its own directory) or /verif.
+fn verif_root() -> String {
+    std::env::var("VERIF_ROOT").unwrap_or_else(|_| "/verif".to_string())
 }
